@@ -1078,7 +1078,7 @@ pub fn scenarios(p: &SParams, directed: bool) -> Vec<Scenario> {
             let mut s2 = sc.clone();
             s2.addr_order = pm.clone();
             // scenarios equal up to renaming of the nodes are generated once
-            if (p.shape == "12m" || p.shape == "q1m2" || p.shape == "q2m2") && !is_canonical(&s2) {
+            if (p.shape == "12m" || p.shape == "q1m2" || p.shape == "q2m2" || (p.shape == "2x1b" && p.n >= 3)) && !is_canonical(&s2) {
                 continue;
             }
             all.push(s2);
